@@ -16,6 +16,7 @@ def cfg0 : Cfg where
     | 3 => some .externalOwned | 4 => some .externalOwned | _ => none
   onChain := fun g c => match g, c with
     | 0, 0 => true | 1, 0 => true | 2, _ => true | 3, 0 => true | 4, 0 => true | 4, 1 => true | _, _ => false
+  envBound := true
 
 /-- `m0fx`: FX locked in the eth module account at genesis (given on the `reset` line) -/
 def ledger0 (m0fx : Nat) : Ledger where
@@ -64,7 +65,13 @@ def showState (s : State) : String :=
       s!"b{c}.{b.nonce}={b.g}:" ++ ",".intercalate ((srt b.txs).map fun t => s!"{t.id}/{t.amount}/{t.fee}")) ++
     (cs.calls.mergeSort (fun a b => a.nonce ≤ b.nonce)).map (fun cl =>
       s!"c{c}.{cl.nonce}=u{cl.sender}:u{cl.refund}:{showTokens cl.tokens}:{if cl.fromMsg then 1 else 0}")
-  " ".intercalate (bals ++ sups ++ chains)
+  -- ghost counters and the external contracts' last executed batch nonce per (chain, token)
+  let nz := fun (pre : String) (f : Nat → Nat) => (List.range nGroups).filterMap fun g =>
+    if f g == 0 then none else some s!"{pre}{g}={f g}"
+  let ghost := nz "D.g" s.deposited ++ nz "W.g" s.withdrawn ++
+    ((List.range nChains).flatMap fun c => nz s!"xl{c}." (s.chains c).extLast) ++
+    ((List.range nChains).flatMap fun c => nz s!"xs{c}." (fun g => if locks cfg0 g then (s.chains c).ext g else 0))
+  " ".intercalate (bals ++ sups ++ chains ++ ghost)
 
 def parseTokens (w : String) : Option (List (Nat × Nat)) :=
   (w.splitOn "+").mapM fun t =>
@@ -80,13 +87,19 @@ def parseOp (ws : List String) : Option Op :=
   | ["deposit", c, g, u, n, e] => do pure (.deposit (← c.toNat?) (← g.toNat?) (← u.toNat?) (← n.toNat?) (e == "1"))
   | ["send", c, g, u, n, f] => do pure (.send (← c.toNat?) (← g.toNat?) (← u.toNat?) (← n.toNat?) (← f.toNat?))
   | ["xsend", c, g, u, n, f] => do pure (.xsend (← c.toNat?) (← g.toNat?) (← u.toNat?) (← n.toNat?) (← f.toNat?))
+  | ["vsend", c, g, u, n, f] => do pure (.vsend (← c.toNat?) (← g.toNat?) (← u.toNat?) (← n.toNat?) (← f.toNat?))
+  | ["xincfee", c, id, u, g, n] => do pure (.xincfee (← c.toNat?) (← id.toNat?) (← u.toNat?) (← g.toNat?) (← n.toNat?))
   | ["cancel", c, id, u] => do pure (.cancel (← c.toNat?) (← id.toNat?) (← u.toNat?))
   | ["xcancel", c, id, u] => do pure (.cancel (← c.toNat?) (← id.toNat?) (← u.toNat?))
   | ["incfee", c, id, u, g, n] => do pure (.incfee (← c.toNat?) (← id.toNat?) (← u.toNat?) (← g.toNat?) (← n.toNat?))
-  | ["batch", c, g, bf] => do pure (.batch (← c.toNat?) (← g.toNat?) (← bf.toNat?))
+  | ["batch", c, g, bf, mf, ao] => do
+    pure (.batch (← c.toNat?) (← g.toNat?) (← bf.toNat?) (← mf.toNat?) (ao == "1"))
   | ["executed", c, g, n] => do pure (.executed (← c.toNat?) (← g.toNat?) (← n.toNat?))
   | ["btimeout", c, g, n] => do pure (.btimeout (← c.toNat?) (← g.toNat?) (← n.toNat?))
   | ["bcout", c, u, r, pre, ts] => do pure (.bcout (← c.toNat?) (← u.toNat?) (← r.toNat?) (← parseTokens ts) (pre == "1"))
+  | ["vbcout", c, g, u, r, v, ts] => do
+    let toks ← if ts == "-" then some [] else parseTokens ts
+    pure (.vbcout (← c.toNat?) (← g.toNat?) (← u.toNat?) (← r.toNat?) (← v.toNat?) toks)
   | ["bcresult", c, n, ok] => do pure (.bcresult (← c.toNat?) (← n.toNat?) (ok == "1"))
   | ["bctimeout", c, n] => do pure (.bctimeout (← c.toNat?) (← n.toNat?))
   | ["bcin", c, to, ts] => do pure (.bcin (← c.toNat?) (← to.toNat?) (← parseTokens ts))
@@ -99,7 +112,10 @@ def parseOp (ws : List String) : Option Op :=
 
 def step' (s : State) (line : String) : State × String :=
   match words line with
-  | "reset" :: rest => (init (ledger0 ((rest.head?.bind String.toNat?).getD 0)), "ok")
+  | "reset" :: rest =>
+    let m0fx := (rest.head?.bind String.toNat?).getD 0
+    -- the FX locked in the eth module account at genesis is what circulates on Ethereum
+    (initE (ledger0 m0fx) (fun c g => if c = 0 ∧ g = 0 then m0fx else 0), "ok")
   | ws =>
     match parseOp ws with
     | none => (s, "bad-op")
